@@ -148,3 +148,17 @@ Theorem C14_depth_bound_is_sharp :
   comparable_key a = comparable_key b /\ cmp_value a b = Lt /\ key_safe_doc a = true /\ key_safe_doc b = false.
 Proof. exact depth_bound_sharp. Qed.
 Print Assumptions C14_depth_bound_is_sharp.
+
+(* ---- the fuel of the comparable-key walker model.  In ComparableWalk.v running out of fuel is SILENT (the loops and the
+   nesting answer `Ok buf`, rd_words answers None), so "<> Err EFuel" would say nothing.  ExtraFuel14.v copies the
+   walker with every fuel a parameter (comparable_w_g g h: g V = fuel of the count-driven loops, h V = nesting fuel, as
+   functions of the buffer walked; with the model's fuels S (length V) the copy IS the model, by reflexivity) and shows
+   that any fuels at least the model's give the model's answer on EVERY input: the fuel never cuts a key short. *)
+From JB Require Import ComparableWalk ExtraFuel14.
+Theorem C14_fuel_never_exhausted :
+  (forall bs buf, comparable_w_g model_fuel model_fuel bs buf = comparable_w bs buf) /\
+  (forall g h, (forall V, (S (length V) <= g V)%nat) -> (forall V, (S (length V) <= h V)%nat) ->
+     forall bs buf, comparable_w_g g h bs buf = comparable_w bs buf) /\
+  (forall V buf f, (S (length V) <= f)%nat -> comparable_b_fuel f V buf = comparable_b V buf).
+Proof. split; [exact comparable_w_g_model|]. split; [exact comparable_w_fuel_independent|exact comparable_b_fuel_independent]. Qed.
+Print Assumptions C14_fuel_never_exhausted.
